@@ -17,10 +17,7 @@ package rtpreceiver
 //@ spec relpos(rr *Receiver, pkt *rtp.Packet) int16 = int16(pkt.SequenceNumber - rr.lastSequenceNumber - 1)
 //@ spec seqoff(p *rtp.Packet, last uint16) uint16 = p.SequenceNumber - last - 1
 
-//@ ufun cnt(s []*rtp.Packet, a uint16, m uint16, k uint16) int
-//@   axiom cnt(s, a, m, 0) == 0
-//@   axiom k < 65535 ==> cnt(s, a, m, k+1) == cnt(s, a, m, k) + ite(s[int((a+k)&m)] != nil, 1, 0)
-//@   trigger cnt(s, a, m, k+1)
+//@ ufun cnt(s []*rtp.Packet, a uint16, m uint16, k uint16) int = ite(k == 0, 0, cnt(s, a, m, k-1) + ite(s[int((a+k-1)&m)] != nil, 1, 0))
 //@   lemma[k] 0 <= cnt(s, a, m, k) && cnt(s, a, m, k) <= int(k)
 //@   lemma[k; j uint16] j <= k ==> cnt(s, a, m, j) <= cnt(s, a, m, k)
 
